@@ -395,7 +395,11 @@ def exec_for(eng, s, fr):
                 return
         eng.exec_block(s.orelse, fr)
         return
-    n, getter = eng.models.as_sequence(eng, seqv)
+    eng.seq_effects = []  # a lazy sequence (extension value) lists here the state that evaluating one of its elements may modify
+    try:
+        n, getter = eng.models.as_sequence(eng, seqv)
+    finally:
+        seq_effects, eng.seq_effects = eng.seq_effects, None  # None: the consumer does not model laziness (lazy sequences refuse)
     pre = f"{_fn_label(eng, fr)}/loop{o}"
     kname = spec.get("index", f"_k{o}")
     old_vars = eng.old_vars_of(fr)
@@ -404,6 +408,8 @@ def exec_for(eng, s, fr):
     check_invs(eng, spec, fr, old_vars, entry_vars, pre, "entry")
     tnames = {x.id for x in ast.walk(s.target) if isinstance(x, ast.Name)}
     havoc_loop_state(eng, s.body, fr, spec, extra_names=set())
+    for v in seq_effects:  # the element of a lazy sequence is evaluated inside the iteration: its effects belong to the loop state
+        havoc_value(eng, v)
     k = fresh("int", kname)
     fr.vars[kname] = k
     nz = zint(n) if not isinstance(n, Sym) else n.z
